@@ -11,3 +11,5 @@ func bytesReader(b []byte) io.Reader { return bytes.NewReader(b) }
 func sscanHex3(s string, a, b, c *uint64) (int, error) {
 	return fmt.Sscanf(s, "%016x/%016x/%016x", a, b, c)
 }
+
+func sscanHex1(s string, a *uint64) (int, error) { return fmt.Sscanf(s, "%016x", a) }
